@@ -191,6 +191,7 @@ theorem stepRel_RStart (now : Int) :
   trig := by
     intro t d ht hi hc _ _
     obtain ⟨h0, hs⟩ := fresh_of_can hi hc
+    have hw := canBeTriggered_window hc
     obtain ⟨_, _, h3, h4, _, _⟩ := hi
     refine ⟨?_, ?_, h3, h4, ?_, ?_⟩ <;>
       cases hf : d.fixed <;> cases hq : d.quiet <;>
@@ -224,18 +225,18 @@ theorem stepRel_RStart (now : Int) :
 def RC (t : Int) (x x' : Dt) : Prop :=
   x'.id = x.id ∧ x'.removed = x.removed ∧ x'.fixed = x.fixed ∧ x'.start = x.start ∧ x'.fin = x.fin ∧
   x'.duration = x.duration ∧ x'.triggers = x.triggers ∧
-  (x'.trigger = x.trigger ∨ (x.trigger = 0 ∧ x'.trigger = t))
+  (x'.trigger = x.trigger ∨ (x.trigger = 0 ∧ x'.trigger = max t x.start))
 
-theorem trigRel_RC (now t : Int) : TrigRel now (fun t' => t' = t ∧ t ≠ 0) (fun _ => True) (RC t) where
+theorem trigRel_RC (now t : Int) : TrigRel now (fun t' => t' = t ∧ 0 < t) (fun _ => True) (RC t) where
   refl := by intro d; exact ⟨rfl, rfl, rfl, rfl, rfl, rfl, rfl, Or.inl rfl⟩
   trans := by
     intro a b c ⟨h1, h2, h3, h4, h5, h6, h6', h7⟩ ⟨g1, g2, g3, g4, g5, g6, g6', g7⟩
     refine ⟨by omega, by simp [*], by simp [*], by omega, by omega, by omega, by simp [*], ?_⟩
     rcases h7 with h7 | ⟨h7, h7'⟩ <;> rcases g7 with g7 | ⟨g7, g7'⟩
     · left; omega
-    · right; exact ⟨by omega, g7'⟩
+    · right; exact ⟨by omega, by rw [g7', h4]⟩
     · right; exact ⟨h7, by omega⟩
-    · right; exact ⟨h7, g7'⟩
+    · right; exact ⟨h7, by rw [g7', h4]⟩
   ctx := fun _ _ _ _ => trivial
   trig := by
     intro t' d ht _ _ _
@@ -245,7 +246,7 @@ theorem trigRel_RC (now t : Int) : TrigRel now (fun t' => t' = t ∧ t ≠ 0) (f
     · left; simp [trigSelf, noteTriggered, markTriggered, h0]
 
 theorem rc_can (now : Int) {t : Int} {x x' : Dt} (h : RC t x x') :
-    (x.trigger = 0 ∧ x'.trigger = t) ∨ canBeTriggered now x' = canBeTriggered now x := by
+    (x.trigger = 0 ∧ x'.trigger = max t x.start) ∨ canBeTriggered now x' = canBeTriggered now x := by
   obtain ⟨_, _, h3, h4, h5, h6, _, h7⟩ := h
   rcases h7 with h7 | h7
   · right
@@ -260,12 +261,12 @@ theorem rc_live {c : Nat} {t : Int} {x x' : Dt} (h : RC t x x') (hl : live c x =
 def Done (now : Int) (c : Nat) (x : Dt) : Prop :=
   x.id = c ∧ x.removed = false ∧ (x.trigger ≠ 0 ∨ canBeTriggered now x = false)
 
-theorem done_succ {now t : Int} (ht : t ≠ 0) {c : Nat} {x x' : Dt} (h : RC t x x') (hd : Done now c x) :
+theorem done_succ {now t : Int} (ht : 0 < t) {c : Nat} {x x' : Dt} (h : RC t x x') (hd : Done now c x) :
     Done now c x' := by
   obtain ⟨h1, h2, h3⟩ := hd
   refine ⟨by rw [h.1]; exact h1, by rw [h.2.1]; exact h2, ?_⟩
   rcases rc_can now h with ⟨_, hn⟩ | he
-  · left; rw [hn]; exact ht
+  · left; rw [hn]; omega
   · rcases h3 with h3 | h3
     · left
       rcases h.2.2.2.2.2.2.2 with h7 | ⟨h7, _⟩
@@ -275,7 +276,7 @@ theorem done_succ {now t : Int} (ht : t ≠ 0) {c : Nat} {x x' : Dt} (h : RC t x
 
 /-- One `TriggerDowntime` call on a name that exists leaves a live downtime of that name which is
     triggered or cannot be triggered. -/
-theorem triggerDt_done (n : Nat) (now t : Int) (ht : t ≠ 0) (c : Nat) (l : List Dt) (y : Dt)
+theorem triggerDt_done (n : Nat) (now t : Int) (ht : 0 < t) (c : Nat) (l : List Dt) (y : Dt)
     (hy : y ∈ l) (hl : live c y = true) :
     ∃ x' ∈ triggerDt (n + 1) now t c l, Done now c x' := by
   have tr := trigRel_RC now t
@@ -299,7 +300,8 @@ theorem triggerDt_done (n : Nat) (now t : Int) (ht : t ≠ 0) (c : Nat) (l : Lis
       refine ⟨?_, ?_, Or.inl ?_⟩
       · simp [trigSelfG, hc, trigSelf, noteTriggered, markTriggered, hzid]
       · simp [trigSelfG, hc, trigSelf, noteTriggered, markTriggered, hzr]
-      · by_cases h0 : z.trigger = 0 <;> simp [trigSelfG, hc, trigSelf, noteTriggered, markTriggered, h0, ht]
+      · by_cases h0 : z.trigger = 0 <;> simp [trigSelfG, hc, trigSelf, noteTriggered, markTriggered, h0]
+        omega
     simp only [triggerDt, hz, hc, Bool.not_true, Bool.false_eq_true, if_false]
     have h2 := both_cascade tr n t ⟨rfl, ht⟩ z.triggers (updateDt l c (trigSelfG now t)) (allc_trivial _)
     obtain ⟨x', hx', r⟩ := h2.1 _ hm
@@ -309,12 +311,12 @@ theorem triggerDt_done (n : Nat) (now t : Int) (ht : t ≠ 0) (c : Nat) (l : Lis
     simp [triggerDt, hz, hc', hzm]
 
 /-- The cascade of one `TriggerDowntime` call that passes its guard reaches every chained name. -/
-theorem cascade_children (n : Nat) (now t : Int) (ht : t ≠ 0) (id : Nat) (dts : List Dt) (d : Dt)
+theorem cascade_children (n : Nat) (now t : Int) (ht : 0 < t) (id : Nat) (dts : List Dt) (d : Dt)
     (hf : findDt dts id = some d) (hc : canBeTriggered now d = true)
     (c : Nat) (hcm : c ∈ d.triggers) (x : Dt) (hx : x ∈ dts) (hl : live c x = true) :
     ∃ x' ∈ triggerDt (n + 2) now t id dts, Done now c x' := by
   have tr := trigRel_RC now t
-  have htk : (fun t' => t' = t ∧ t ≠ 0) t := ⟨rfl, ht⟩
+  have htk : (fun t' => t' = t ∧ 0 < t) t := ⟨rfl, ht⟩
   obtain ⟨pre, post, hsplit⟩ := List.append_of_mem hcm
   simp only [triggerDt, hf, hc, Bool.not_true, Bool.false_eq_true, if_false]
   rw [hsplit, List.foldl_append, List.foldl_cons]
